@@ -13,6 +13,10 @@ SUBST = [0x00, 0x01, 0x02, 0x05, 0x30, 0x7F, 0x80, 0x81, 0x82, 0x83, 0x84, 0x88,
 INST = PFX + (1, 1, 0)
 
 
+OPAQUE_BER = [bytes.fromhex("3008040341414104" "8041"), bytes.fromhex("30800201"), bytes.fromhex("3003048041"), bytes.fromhex("0480"), bytes.fromhex("a28000"),
+              bytes.fromhex("3084ffffffff"), b"\x30\x04" * 30, bytes.fromhex("9f780442f60000")]
+
+
 def header_positions(data: bytes):
     """offsets of every tag octet and length octet (recursively through constructed values and the USM OCTET STRING)"""
     out = []
@@ -57,7 +61,11 @@ def mutations(seed: bytes, rnd, quick, stride=1):
     for k in (8, 20, 40):
         crafted.append(("overlap", k, 0))    # nested lengths that all reach to the end of the datagram: 2^k routes through the same octets
     for n in (1000, 6400):
-        crafted.append(("many", n, 0))       # a well-formed message with thousands of tiny bindings (work must stay linear in the size)
+        crafted.append(("many", n, 0))
+    for v in range(len(OPAQUE_BER)):
+        crafted.append(("opaque_ber", v, 0))  # a well-formed message whose Opaque / OCTET STRING value is itself (hostile) BER: values are opaque to the codec
+    for p in hp:
+        crafted.append(("subst", p, 0x80))    # the indefinite-length octet at every header position, never sub-sampled       # a well-formed message with thousands of tiny bindings (work must stay linear in the size)
     M.append(("insert80", 0, 0))
     for p in hp[:40]:
         M.append(("straddle", p, 0))
@@ -103,6 +111,15 @@ def apply(seed: bytes, m):
             rest = total - (6 * i + 6)
             out += b"\x30\x04\x30\x82" + bytes([rest >> 8, rest & 255])
         return bytes(out) + b"\x02\x01\x00\x05\x00\x05\x00"
+    if kind == "opaque_ber":
+        try:
+            q = parse_community(seed)
+        except Exception:  # noqa
+            return seed
+        keep = 2 if q["ptype"] == 0xa7 else 0          # a notification keeps its two leading bindings (uptime, trap OID)
+        vbs = [(o, tlv(t, c)) for o, t, c in q["vbs"][:keep]]
+        vbs += [(o, enc_str(OPAQUE_BER[a], 0x44 if i % 2 == 0 else 0x04)) for i, (o, _, _) in enumerate(q["vbs"][keep:] or [((1, 3, 6, 1, 4, 1, 99999, 1, 1, 0), 5, b"")])]
+        return build_community(q["version"], q["community"], build_pdu(q["ptype"], q["reqid"], 0, 0, vbs), None)
     if kind == "many":
         try:
             q = parse_community(seed)
@@ -205,7 +222,13 @@ async def run_target(target, proto, muts, seedsel):
             t0 = time.process_time()
             try:
                 with cpu_budget(1.5 if m[0] not in ("huge", "nest", "nest_tail", "many") else 6.0):
-                    if seedsel == "multiget":
+                    if target == "pyresponse":
+                        from puresnmp import PyWrapper
+                        if seedsel == "multiget":
+                            await PyWrapper(c).multiget([oidstr(INST), oidstr(PFX + (1, 2, 0)), oidstr(PFX + (1, 3, 0))])
+                        else:
+                            await PyWrapper(c).get(oidstr(INST))
+                    elif seedsel == "multiget":
                         await c.multiget([OID(oidstr(INST)), OID(oidstr(PFX + (1, 2, 0))), OID(oidstr(PFX + (1, 3, 0)))])
                     elif seedsel == "bulk":
                         await c.bulkget([], [OID(oidstr(PFX + (1,)))], 3)
